@@ -245,6 +245,14 @@ class TrialModel(BaseModel):
         # "FOR UPDATE" clause is used for row-level locking.
         # Please note that SQLite3 doesn't support this clause.
         if for_update:
+            if session.get_bind().dialect.name == "sqlite":
+                # SQLite3 ignores the clause and its driver opens the transaction only at
+                # the first write, so that the row would be read outside of the transaction
+                # and could be changed by another connection before it is updated.
+                # Take the write lock by a no-op update before reading instead.
+                session.query(cls).filter(cls.trial_id == trial_id).update(
+                    {cls.state: cls.state}, synchronize_session=False
+                )
             query = query.with_for_update()
 
         trial = query.one_or_none()
